@@ -54,7 +54,8 @@ def scenarios(draw):
             e["given"] = src.choice(["A", "A", "B", "OUT2", "OUT3"])
     # feature ids that table readers like to take for missing values
     if src.bool(0.2):
-        ids = src.shuffle(["NA", "nan", "null", "None", "N/A"])
+        # ... or for quoted fields (an embedded double quote survives GTF parsing: gene_id "G"3"; gives G"3)
+        ids = src.shuffle(["NA", "nan", "null", "None", "N/A", 'G"3', 'x"y"z'])
         for g in sc["genes"]:
             if ids and src.bool(0.5):
                 g["id"] = ids.pop()
@@ -232,7 +233,10 @@ def evaluate(case, ctx):
                 if not os.path.exists(cp):
                     ctx.violation("C10:combined-table-missing", {"file": os.path.basename(cp)}, case)
                     continue
-                comb = pd.read_csv(cp, sep="\t", dtype={"#feature_id": str}, keep_default_na=False, na_values=[""])
+                # read like the individual tables: tab-separated text, a double quote is a character like any other
+                import csv
+                comb = pd.read_csv(cp, sep="\t", dtype={"#feature_id": str}, keep_default_na=False, na_values=[""],
+                                   quoting=csv.QUOTE_NONE)
                 names = [e["final"] for e in exps]
                 if list(comb.columns) != ["#feature_id"] + names:
                     ctx.violation("C10:combined-table-columns-differ", {"file": os.path.basename(cp),
